@@ -21,7 +21,7 @@ HostForms == {[kind |-> "name", text |-> "server.test", plain |-> "server.test"]
               [kind |-> "v6", text |-> "[2001:db8::1]", plain |-> "2001:db8::1"],
               [kind |-> "empty", text |-> "", plain |-> ""]}
 Ports    == {0, 1, 80, 443, 8080, 65535}
-Paths    == {"", "/", "/a/b", "/chat;v=1", "/a;b/c;d"}       \* (";" is an ordinary path character: nothing of the path is dropped)
+Paths    == {"", "/", "/a/b", "/chat;v=1", "/a;b/c;d", "/p;", "/a;b/c;"}       \* (";" is an ordinary path character: nothing of the path is dropped)
 Queries  == {"", "q=1", "q=a+b&r=(1)*'$!,;:@[x]"}       \* (every character the query grammar allows goes out as it is)
 \* (":/" followed by an empty host and a path renders as "://" + path: that text is a different,
 \* well-formed URL, so the combination is left out of the component space)
